@@ -537,6 +537,13 @@ func (c *Client) writeLoop() {
 		c.lat()
 		req, r := c.w.newRequest(c.name, ReqSpec{Method: "POST", Path: c.path(), Query: c.query("polling"), Hdr: h, Body: body})
 		c.postResp = r
+		var pl []string
+		for _, p := range q {
+			if p.Type == tMessage {
+				pl = append(pl, kindPrefix(p.Binary)+string(p.Data))
+			}
+		}
+		c.w.recx(Ev{Sess: c.name, Kind: "c-post-start", N: int64(r.ID), P: pl})
 		c.w.serveReq(c.w.H, req, r)
 		c.lat()
 		c.postResp = nil
@@ -760,6 +767,7 @@ func (c *Client) doFault(f FaultSpec) {
 		if c.transport == "polling" {
 			c.w.fault("overlap-post")
 			c.spawn("dup", func() {
+				c.w.recx(Ev{Sess: c.name, Kind: "c-send", S: "t:dup"})
 				body, ct := c.encodePost([]ref.Packet{{Type: tMessage, Data: []byte("dup")}})
 				h := c.hdr()
 				h["Content-Type"] = ct
